@@ -80,10 +80,8 @@ Definition dist_ok (p : params) : Prop :=
 
 (** the polynomial is positive below MaxPeriod *)
 Definition poly_pos (p : params) : Prop := forall per, 0 <= per < p_max p -> 0 < poly_provision p per.
-(** … and yields at least one unibi per epoch *)
+(** … and yields at least one unibi per epoch (true of the default polynomial, Gen/C13Oblig.v) *)
 Definition poly_unit (p : params) : Prop := forall per, 0 <= per < p_max p -> PREC <= poly_provision p per.
-(** what the schedule needs of the polynomial, depending on whether a provision below one unibi panics *)
-Definition poly_ok (zp : bool) (p : params) : Prop := if zp then poly_unit p else poly_pos p.
 
 Definition two62 : Z := 4611686018427387904.
 
@@ -98,26 +96,93 @@ Definition next_params (p : params) (o : op) : params :=
   end.
 
 (** what the schedule needs of the polynomial at the (c+1)-th enabled epoch: while the schedule has not ended the
-    provision is positive (at least one unibi if a smaller one panics).  [poly_ok] implies it for every c. *)
-Definition prov_ok (zp : bool) (p : params) (c : Z) : Prop :=
-  c / p_epp p < p_max p -> (if zp then PREC else 1) <= poly_provision p (c / p_epp p).
+    provision is positive.  [poly_pos] implies it for every c. *)
+Definition prov_ok (p : params) (c : Z) : Prop :=
+  c / p_epp p < p_max p -> 0 < poly_provision p (c / p_epp p).
 
 (** histories the property quantifies over: day epochs end with consecutive numbers starting at [e];
     EpochsPerPeriod = E and MaxPeriod = M throughout; whenever an enabled day epoch ends the polynomial is
     positive at the scheduled period and the proportions are valid; no stray coins in the module account.
     [c] = enabled day epochs so far. *)
-Fixpoint hist_ok (zp : bool) (E M : Z) (p : params) (c e : Z) (ops : list op) : Prop :=
+Fixpoint hist_ok (E M : Z) (p : params) (c e : Z) (ops : list op) : Prop :=
   match ops with
   | [] => True
   | o :: r =>
       match o with
       | EpochEnd true e' =>
-          e' = e /\ 0 <= e < two62 /\ (p_enabled p = true -> prov_ok zp p c /\ dist_ok p) /\
-          hist_ok zp E M p (if p_enabled p then c + 1 else c) (e + 1) r
+          e' = e /\ 0 <= e < two62 /\ (p_enabled p = true -> prov_ok p c /\ dist_ok p) /\
+          hist_ok E M p (if p_enabled p then c + 1 else c) (e + 1) r
       | Fund _ => False
-      | _ => p_epp (next_params p o) = E /\ p_max (next_params p o) = M /\ hist_ok zp E M (next_params p o) c e r
+      | _ => p_epp (next_params p o) = E /\ p_max (next_params p o) = M /\ hist_ok E M (next_params p o) c e r
       end
   end.
+
+(* ---------------------------------------------------------------- distribution, claimed for EVERY state *)
+
+(** what one day-epoch end must publish given the proportions [p] and the module balance before it [m0]
+    (no consistency, no schedule: "everything minted is distributed in the same block") *)
+Definition dist_step (p : params) (m0 : Z) (x : out) : Prop :=
+  0 <= o_minted x /\
+  (0 < o_minted x ->
+     o_staking x + o_community x + o_strategic x = o_minted x + m0 /\ o_module x = 0 /\
+     o_staking x = o_minted x * p_staking p / PREC /\ o_community x = o_minted x * p_community p / PREC) /\
+  (o_minted x = 0 -> o_staking x = 0 /\ o_community x = 0 /\ o_strategic x = 0 /\ o_module x = m0).
+
+Definition dist_okb (p : params) : bool :=
+  (0 <=? p_staking p) && (0 <=? p_community p) && (0 <=? p_strategic p) &&
+  (p_staking p + p_strategic p + p_community p =? PREC).
+
+(** along a trace: parameters follow the toggles / edits, the module balance is what the previous op published *)
+Fixpoint P_dist (p : params) (m0 : Z) (tr : list (op * out)) : Prop :=
+  match tr with
+  | [] => True
+  | (o, x) :: r =>
+      match o with
+      | EpochEnd true _ => (dist_okb p = true -> dist_step p m0 x) /\ P_dist p (o_module x) r
+      | _ => P_dist (next_params p o) (o_module x) r
+      end
+  end.
+
+Definition dist_stepb (p : params) (m0 : Z) (x : out) : bool :=
+  (0 <=? o_minted x) &&
+  (if 0 <? o_minted x then
+     (o_staking x + o_community x + o_strategic x =? o_minted x + m0) && (o_module x =? 0) &&
+     (o_staking x =? o_minted x * p_staking p / PREC) && (o_community x =? o_minted x * p_community p / PREC)
+   else true) &&
+  (if o_minted x =? 0 then
+     (o_staking x =? 0) && (o_community x =? 0) && (o_strategic x =? 0) && (o_module x =? m0)
+   else true).
+
+Fixpoint Pb_dist (p : params) (m0 : Z) (tr : list (op * out)) : bool :=
+  match tr with
+  | [] => true
+  | (o, x) :: r =>
+      match o with
+      | EpochEnd true _ => (negb (dist_okb p) || dist_stepb p m0 x) && Pb_dist p (o_module x) r
+      | _ => Pb_dist (next_params p o) (o_module x) r
+      end
+  end.
+
+Lemma dist_stepb_sound p m0 x : dist_stepb p m0 x = true -> dist_step p m0 x.
+Proof.
+  unfold dist_stepb, dist_step. intro H.
+  apply andb_true_iff in H. destruct H as [H H3]. apply andb_true_iff in H. destruct H as [H1 H2].
+  apply Z.leb_le in H1. split; [exact H1|]. split.
+  - intro Pos. apply Z.ltb_lt in Pos. rewrite Pos in H2.
+    repeat (apply andb_true_iff in H2; destruct H2 as [H2 ?]).
+    repeat match goal with X : (_ =? _) = true |- _ => apply Z.eqb_eq in X end. auto.
+  - intro Zr. apply Z.eqb_eq in Zr. rewrite Zr in H3.
+    repeat (apply andb_true_iff in H3; destruct H3 as [H3 ?]).
+    repeat match goal with X : (_ =? _) = true |- _ => apply Z.eqb_eq in X end. auto.
+Qed.
+
+Lemma Pb_dist_sound tr : forall p m0, Pb_dist p m0 tr = true -> P_dist p m0 tr.
+Proof.
+  induction tr as [|[o x] r IH]; intros p m0 H; [exact I|].
+  destruct o as [[|] e|auth b|auth ed|amt]; cbn [Pb_dist P_dist] in *; try (apply IH; exact H).
+  apply andb_true_iff in H. destruct H as [H1 H2]. split; [|apply IH; exact H2].
+  intro D. rewrite D in H1. cbn in H1. apply dist_stepb_sound. exact H1.
+Qed.
 
 (* ---------------------------------------------------------------- boolean checker *)
 
